@@ -86,6 +86,19 @@ func idxName(l []string, i int, dflt string) string {
 	return dflt
 }
 
+// swapCoins: the amount of a bep3 message; Coins (indexes into c16B3Denoms, in
+// sdk.Coins order) when given, otherwise the single coin (A, X).
+func swapCoins(op c16Op) sdk.Coins {
+	if len(op.Coins) == 0 {
+		return sdk.Coins{sdk.NewCoin(idxName(c16B3Denoms, op.A, "nob3"), intOf(op.X))}
+	}
+	out := make(sdk.Coins, len(op.Coins))
+	for i, c := range op.Coins {
+		out[i] = sdk.NewCoin(idxName(c16B3Denoms, c.D, "nob3"), intOf(c.A))
+	}
+	return out
+}
+
 func swapHash(nonce string) []byte {
 	h := sha256.Sum256([]byte("c16-swap-" + nonce))
 	return h[:]
@@ -118,7 +131,7 @@ func (w *c16World) exec(ctx sdk.Context, op c16Op, signer int) error {
 		_, err = w.issMsg.SetPauseStatus(g, m)
 	case "swap":
 		m := bep3types.NewMsgCreateAtomicSwap(s.String(), w.addrs[op.B].String(), "0xrecipientOtherChain", "0xsenderOtherChain",
-			swapHash(op.Y), ctx.BlockTime().Unix(), sdk.NewCoins(sdk.NewCoin(idxName(c16B3Denoms, op.A, "nob3"), intOf(op.X))), 250)
+			swapHash(op.Y), ctx.BlockTime().Unix(), swapCoins(op), 250)
 		_, err = w.b3Msg.CreateAtomicSwap(g, &m)
 	case "submit":
 		m, e := committeetypes.NewMsgSubmitProposal(govv1beta1.NewTextProposal("title "+op.Y, "description"), s, uint64(op.A))
@@ -207,7 +220,11 @@ func (w *c16World) isPrincipal(v *c16View, op c16Op, b int) bool {
 	case "issue", "redeem", "block", "unblock", "pause":
 		return op.A >= 0 && op.A < len(v.assets) && v.assets[op.A].owner == b
 	case "swap":
-		// incoming swaps only from the deputy; a message addressed to the deputy is an outgoing swap, open to anyone
+		// incoming swaps only from the deputy; a message addressed to the deputy is an outgoing swap, open to anyone;
+		// a message with several coins (only the first is checked against a deputy, a claim mints all) is for nobody
+		if len(op.Coins) > 1 {
+			return false
+		}
 		return op.A >= 0 && op.A < len(v.b3dep) && (v.b3dep[op.A] == b || v.b3dep[op.A] == op.B)
 	case "submit":
 		for _, c := range v.coms {
@@ -323,7 +340,11 @@ func (w *c16World) coqOp(op c16Op, rest bool, eo earnOracle) string {
 	case "pause":
 		return fmt.Sprintf("SetPause %s %s %s", Nat(op.P), Nat(op.A), Bool(op.Flag))
 	case "swap":
-		return fmt.Sprintf("CreateSwap %s %s %s %s %s", Nat(op.P), Nat(op.B), Nat(op.A), Z(bigOf(op.X)), r)
+		cs := op.Coins
+		if len(cs) == 0 {
+			cs = []c16Coin{{op.A, op.X}}
+		}
+		return fmt.Sprintf("CreateSwap %s %s %s %s", Nat(op.P), Nat(op.B), coqCoins(cs), r)
 	case "submit":
 		return fmt.Sprintf("Submit %s %s %s %s", Nat(op.P), Nat(op.A), Z(bigOf(op.X)), r)
 	case "vote":
@@ -489,6 +510,22 @@ func (w *c16World) genOp(r *Rng, v *c16View, enabled []string) c16Op {
 				}
 				op.B = dep
 				op.X = fmt.Sprint(1002 + r.Intn(2_000_000))
+			}
+			if r.Chance(1, 4) && op.A < len(v.b3dep) {
+				// several coins: the asset of another deputy rides along behind (or in front of) the checked coin
+				other := (op.A + 1) % len(v.b3dep)
+				cs := []c16Coin{{op.A, op.X}, {other, fmt.Sprint(1 + r.Intn(2_000_000))}}
+				if cs[0].D > cs[1].D {
+					cs[0], cs[1] = cs[1], cs[0]
+				}
+				op.Coins = cs
+				op.A, op.X = cs[0].D, cs[0].A // the coin the keeper looks at
+				if r.Chance(1, 2) {
+					op.P = v.b3dep[op.A] // sent by the deputy of the first coin
+					if op.B == op.P {
+						op.B = (op.P + 1) % c16NUsers
+					}
+				}
 			}
 			w.nonce++
 			op.Y = fmt.Sprintf("%d", w.nonce)
